@@ -12,6 +12,7 @@
      (the statements below); evaluation order, short-circuit and negation are those of `Spec.specE`, which the
      engine refines (`evalE_sound`, C01).
 -/
+import GruleModel.Proofs.LexDoc
 import GruleModel.Spec
 import GruleModel.Snapshot
 import GruleModel.Properties.TableTie
@@ -282,6 +283,44 @@ theorem C05_leading_whitespace (ws cs : List Char) (h : ∀ c ∈ ws, isWs c = t
 theorem C05_leading_comment (body cs : List Char) (h : LexFacts.hasClose body = false) :
     lex ('/' :: '*' :: (body ++ '*' :: '/' :: cs)) = lex cs := LexFacts.lex_leading_comment body cs h
 
+/-- **Whitespace and comments never change the value**: whatever separators stand after the canonical tokens of a
+    well-formed document — any mixture of spaces, tabs, newlines, block comments and line comments, each beginning with a
+    whitespace character — the tokens and the parsed rules (hence every expression tree and its value) are the same
+    (`Proofs/LexRender.lex_renderS`, `LexDoc.lex_parse_layout`; examples of separators: `LexDoc.goodSep_examples`). -/
+theorem C05_layout_independent (rules : List Rule)
+    (h : ∀ r ∈ rules, ParseDoc.WFRule RealLiterals.Covered r ∧ LexDoc.LRule r) (seps seps' : List (List Char))
+    (hlen : seps.length = (ParseDoc.fDoc RealLiterals.canonTok LexDoc.canonOt LexDoc.canonDT rules).length)
+    (hlen' : seps'.length = (ParseDoc.fDoc RealLiterals.canonTok LexDoc.canonOt LexDoc.canonDT rules).length)
+    (hs : ∀ sep ∈ seps, LexRender.GoodSep sep) (hs' : ∀ sep ∈ seps', LexRender.GoodSep sep) :
+    parseDoc realDec (lex (LexRender.renderS ((ParseDoc.fDoc RealLiterals.canonTok LexDoc.canonOt LexDoc.canonDT rules).zip seps))).toks =
+    parseDoc realDec (lex (LexRender.renderS ((ParseDoc.fDoc RealLiterals.canonTok LexDoc.canonOt LexDoc.canonDT rules).zip seps'))).toks := by
+  rw [(LexDoc.lex_parse_layout rules h seps hlen hs).2, (LexDoc.lex_parse_layout rules h seps' hlen' hs').2]
+
+/-- **Keyword case, whitespace and comments never change the value**: any token list that differs from the canonical tokens
+    of a well-formed document only in the spelling of keyword tokens — every capitalisation of a keyword lexes as that
+    keyword (`C05_keyword_any_case`), and the parser never reads the text of a keyword, operator or punctuation token
+    (`ParseNorm.parseDoc_norm`) — laid out with any separators of whitespace and comments, is parsed into exactly the
+    document. Instance with `RULE … SaLiEnCe … When … tHEN`: `LexDoc.sample_anycase`. -/
+theorem C05_case_and_layout_free (rules : List Rule)
+    (h : ∀ r ∈ rules, ParseDoc.WFRule RealLiterals.Covered r ∧ LexDoc.LRule r) (ts' : List Token)
+    (hnorm : ts'.map ParseNorm.norm = ParseDoc.fDoc RealLiterals.canonTok LexDoc.canonOt LexDoc.canonDT rules)
+    (hlex : ∀ t ∈ ts', LexRender.Lexes t) (seps : List (List Char)) (hlen : seps.length = ts'.length)
+    (hs : ∀ sep ∈ seps, LexRender.GoodSep sep) :
+    (lex (LexRender.renderS (ts'.zip seps))).errs = 0 ∧
+    parseDoc realDec (lex (LexRender.renderS (ts'.zip seps))).toks = (rules, none) :=
+  LexDoc.lex_parse_anycase rules h ts' hnorm hlex seps hlen hs
+
+/-- every capitalisation of a keyword lexes as that keyword, before any whitespace -/
+theorem C05_keyword_any_case (k : TK) (wd : String) (hk : (k, true, wd) ∈ fixedTable) (tx : List Char)
+    (hw : tx.map lowerC = wd.toList) : LexRender.Lexes ⟨k, tx⟩ := LexTokens.lexes_keyword k wd hk tx hw
+
+#print axioms C05_case_and_layout_free
+#print axioms C05_keyword_any_case
+#print axioms Grule.ParseNorm.parseDoc_norm
+#print axioms Grule.LexDoc.sample_anycase
+#print axioms C05_layout_independent
+#print axioms Grule.LexDoc.lex_parse_layout
+#print axioms Grule.LexDoc.goodSep_examples
 #print axioms C05_leading_comment
 #print axioms C05_int_arith
 #print axioms C05_int_add_exact
